@@ -43,6 +43,29 @@ CHECKS = {
         "programs; NaN and cyclic values outside the domain.",
         "DESIGN.md 3/C05",
     ),
+    "C04": (
+        "exhaustive product of labelled vocabulary x resolving/calling opcode x callee shape x "
+        "disposal x framing (Hypothesis-sampled in quick) + assembler programs; severity floor "
+        "recomputed from the reference VM's event log",
+        "Generated-input search with an independent oracle: for each generated program the "
+        "floor demanded by the property is recomputed from what CPython's unpickler would "
+        "actually import/call (inert stubs) and hand labels, and compared by integer rank with "
+        "check_safety's verdict. The thorough tier enumerates the whole 518k-cell product.",
+        "Trusted: hand labels in vlib/vocab.py; pickle._Unpickler over stubs; programs the "
+        "analysis refuses are fail-closed and counted, not judged.",
+        "DESIGN.md 3/C04",
+    ),
+    "C19": (
+        "exhaustive (module x special-cased attribute name x opcode) product + Hypothesis "
+        "assembler programs; totality / JSON round-trip / loader-report equality oracle",
+        "Generated-input search over decompilable programs built from every module category x "
+        "every attribute name some rule special-cases: check_safety must return, findings must "
+        "be well-formed, the report must survive json round-trip, and the checked loader's "
+        "UnsafeFileError.info must equal it (harmless sub-family only).",
+        "Trusted: json module; decompilability decided by fickling itself (refusals are outside "
+        "the quantifier).",
+        "DESIGN.md 3/C19",
+    ),
 }
 
 PENDING = {}
